@@ -5,12 +5,15 @@
 //!
 //! cfg (comma separated): g0|g1 grease, mfs=<n>, wt=<0|1>, ec=<0|1>, dg=<0|1>, wts=<n>,
 //!   seed=<n> executor order seed, uc=<n>/bc=<n> initial uni/bidi stream credit,
-//!   wc=<n> initial write credit of every stream h3 writes on (default unlimited)
+//!   wc=<n> initial write credit of every stream h3 writes on (default unlimited),
+//!   ev=1 log what h3 does on the transport into the trace, in order: w<sid>:<hex> fin<sid> rst<sid>:<c>
+//!   stop<sid>:<c> close:<c>  (default off)
 //! peer ops: o<sid> open; s<sid>:<hex> deliver chunk; f<sid> FIN; r<sid>:<code> RESET;
 //!   x<sid>:<code> STOP_SENDING; C<code> application close; T timeout;
 //!   gu<n> / gb<n> grant stream credit; gw<sid>:<n> grant write credit; cw<sid>:<n> set it
 //! api ops: <task>.<cmd>  (tasks: conn, drv, snd, q<sid>, q<sid>s); `conn.U` / `drv.U` list and drain the
-//!   WebTransport uni streams accepted so far (`<session>:<hex>:<open|fin|rst<c>>,…`)
+//!   WebTransport uni streams accepted so far (`<session>:<hex>:<open|fin|rst<c>>,…`); <task>.kill drops
+//!   the task's future, <task>.kill? does the same but tolerates a task that does not exist (any more)
 #![allow(dead_code)]
 use crate::exec::*;
 use crate::sim::*;
@@ -795,10 +798,11 @@ pub struct Cfg {
     pub uc: usize,
     pub bc: usize,
     pub wc: usize,
+    pub ev: bool,
 }
 
 pub fn parse_cfg(s: &str) -> Option<Cfg> {
-    let mut c = Cfg { grease: false, mfs: None, wt: false, ec: false, dg: false, wts: None, seed: 0, uc: UNLIMITED, bc: UNLIMITED, wc: UNLIMITED };
+    let mut c = Cfg { grease: false, mfs: None, wt: false, ec: false, dg: false, wts: None, seed: 0, uc: UNLIMITED, bc: UNLIMITED, wc: UNLIMITED, ev: false };
     for t in s.split(',') {
         if t == "-" || t.is_empty() {
             continue;
@@ -818,6 +822,7 @@ pub fn parse_cfg(s: &str) -> Option<Cfg> {
                 "uc" => c.uc = v.parse().ok()?,
                 "bc" => c.bc = v.parse().ok()?,
                 "wc" => c.wc = v.parse().ok()?,
+                "ev" => c.ev = v == "1",
                 _ => return None,
             }
         } else {
@@ -847,6 +852,9 @@ fn spawn_endpoint(exec: &Exec, role: &str, cfg: &Cfg, prefix: &str, trace: Trace
         n.default_tx_credit = cfg.wc;
     }
     let ctx = Ctx { prefix: prefix.to_string(), trace, spawner: exec.spawner.clone(), inflight: Default::default(), net };
+    if cfg.ev {
+        ctx.net.borrow_mut().events = Some(ctx.trace.clone());
+    }
     let mb: Mailbox = Default::default();
     if server {
         let mut b = h3::server::builder();
@@ -915,6 +923,13 @@ impl Run {
             if task.chars().next().map(|c| c.is_ascii_lowercase()).unwrap_or(false) && !task.contains(':') {
                 if cmd == "kill" {
                     return self.exec.kill(task);
+                }
+                // like `kill`, but a task that does not exist (any more) is not a malformed op
+                if cmd == "kill?" {
+                    if !self.exec.kill(task) {
+                        self.ctx.trace.borrow_mut().push(format!("{}.kill?=no-task", task));
+                    }
+                    return true;
                 }
                 if !self.exec.post(task, cmd) {
                     self.ctx.trace.borrow_mut().push(format!("{}.{}=no-task", task, cmd.split(':').next().unwrap_or("")));
